@@ -106,11 +106,16 @@ type FS struct {
 	hook Hook
 
 	// ledger
-	Created     []string // every name ever passed to Create, in order
-	CreateDup   []string // Create called on an existing name
-	Trace       []Event  // recorded events if RecordTrace
-	RecordTrace bool
-	ReadBudget  func(name string, size int) int // optional per-handle ReadAt budget
+	Created []string // every name ever passed to Create, in order
+	// RetiredIDs are segment IDs that were listed in committed metadata and
+	// later dropped from it; CreateRetired records Creates of such IDs.
+	RetiredIDs    map[uint64]bool
+	CreateRetired []string
+	LiveIDs       map[uint64]bool
+	CreateDup     []string // Create called on an existing name
+	Trace         []Event  // recorded events if RecordTrace
+	RecordTrace   bool
+	ReadBudget    func(name string, size int) int // optional per-handle ReadAt budget
 }
 
 func New() *FS {
@@ -202,6 +207,10 @@ func (fs *FS) Create(dir, name string, size uint64) (types.WritableFile, error) 
 	fs.mu.Lock()
 	defer fs.mu.Unlock()
 	fs.Created = append(fs.Created, name)
+	var bi, id uint64
+	if n, _ := fmt.Sscanf(name, "%020d-%016x.wal", &bi, &id); n == 2 && fs.RetiredIDs[id] {
+		fs.CreateRetired = append(fs.CreateRetired, name)
+	}
 	if _, ok := fs.cur[name]; ok {
 		fs.CreateDup = append(fs.CreateDup, name)
 		return nil, fmt.Errorf("simfs: create %s: %w", name, os.ErrExist)
@@ -477,6 +486,19 @@ func (m *Meta) CommitState(st types.PersistentState) error {
 	}
 	m.fs.mu.Lock()
 	m.fs.meta = raw
+	now := map[uint64]bool{}
+	for _, si := range st.Segments {
+		now[si.ID] = true
+	}
+	if m.fs.RetiredIDs == nil {
+		m.fs.RetiredIDs = map[uint64]bool{}
+	}
+	for id := range m.fs.LiveIDs {
+		if !now[id] {
+			m.fs.RetiredIDs[id] = true
+		}
+	}
+	m.fs.LiveIDs = now
 	m.fs.mu.Unlock()
 	return nil
 }
@@ -685,6 +707,7 @@ func (fs *FS) PowerLoss(t Tear) *FS {
 	}
 	nf.Created = append([]string(nil), fs.Created...)
 	nf.CreateDup = append([]string(nil), fs.CreateDup...)
+	nf.copyLedger(fs)
 
 	// Directory: for each differing name choose volatile or durable view.
 	names := fs.allNamesLocked()
@@ -758,6 +781,7 @@ func (fs *FS) Clone() *FS {
 	}
 	nf.Created = append([]string(nil), fs.Created...)
 	nf.CreateDup = append([]string(nil), fs.CreateDup...)
+	nf.copyLedger(fs)
 	m := map[*inode]*inode{}
 	cp := func(i *inode) *inode {
 		if i == nil {
@@ -780,6 +804,18 @@ func (fs *FS) Clone() *FS {
 		nf.dur[n] = cp(i)
 	}
 	return nf
+}
+
+func (nf *FS) copyLedger(fs *FS) {
+	nf.RetiredIDs = map[uint64]bool{}
+	for k := range fs.RetiredIDs {
+		nf.RetiredIDs[k] = true
+	}
+	nf.LiveIDs = map[uint64]bool{}
+	for k := range fs.LiveIDs {
+		nf.LiveIDs[k] = true
+	}
+	nf.CreateRetired = append([]string(nil), fs.CreateRetired...)
 }
 
 // Quiesce turns the current cache view into a fully durable one (as if a clean
